@@ -28,6 +28,7 @@ const PROGS: &[Prog] = &[
     Prog { name: "locals", src: "proc.foo.2 loc_store.0 loc_load.1 add loc_load.0 end begin exec.foo mem_store.5 mem_load.5 end", inputs: &[7, 8, 9], kernel: false },
     Prog { name: "syscall", src: "begin push.1 syscall.kfoo swap drop end", inputs: &[2, 3], kernel: true },
     Prog { name: "nested", src: "begin push.1 if.true push.0 while.true push.0 end repeat.2 push.4 drop end else push.1 if.true add end end add end", inputs: &[1, 1, 5, 6], kernel: false },
+    Prog { name: "asserts", src: "begin push.1 assert.err=1 push.2 u32assert.err=5 drop push.3 push.3 assert_eq.err=7 end", inputs: &[], kernel: false },
     Prog { name: "longspan", src: "begin push.1 push.2 push.3 push.4 push.5 push.6 push.7 push.8 push.9 push.10 add add add add add add add add add push.99999 mul u32split drop end", inputs: &[], kernel: false },
 ];
 
@@ -74,6 +75,10 @@ fn substitute(t: &str) -> Option<String> {
         ("loc_store.0", "loc_store.1"), ("loc_load.1", "loc_load.0"), ("loc_load.0", "loc_load.1"), ("repeat.3", "repeat.4"), ("repeat.2", "repeat.3"),
         ("syscall.kfoo", "syscall.kbar")];
     for (a, b) in m { if t == *a { return Some(b.to_string()); } }
+    // error codes are immediates of the assertion instructions
+    for pre in ["assert.err=", "u32assert.err=", "assert_eq.err="] {
+        if let Some(v) = t.strip_prefix(pre) { if let Ok(n) = v.parse::<u64>() { return Some(format!("{pre}{}", n + 1)); } }
+    }
     if let Some(v) = t.strip_prefix("push.") { if let Ok(n) = v.parse::<u64>() { return Some(format!("push.{}", n + 1)); } }
     None
 }
@@ -146,7 +151,7 @@ fn main() {
                 checks += 1;
                 match compile(&src, false, p.kernel) {
                     Ok(h) if h != base => {}
-                    Ok(_) => fail("insensitive", p.name, format!("`{src}` has the hash of `{}`", p.src)),
+                    Ok(_) => fail(if t.contains(".err=") { "insensitive-to-error-code" } else { "insensitive" }, p.name, format!("`{src}` has the hash of `{}`", p.src)),
                     Err(_) => {} // the substituted program need not be valid
                 }
             }
